@@ -19,6 +19,9 @@ impl Metrics {
     { unimplemented!() }
     #[verifier::external_body]
     pub fn is_op(&self) -> (r: bool) ensures r == self.op { unimplemented!() }
+    /// Arc<Metrics>::clone(): the same ledger (R9)
+    #[verifier::external_body]
+    pub fn clone(&self) -> (r: Self) ensures r == *self { unimplemented!() }
     /// `Metrics::Noop` / `Metrics::new()`: the ledger that records nothing
     #[verifier::external_body]
     pub fn vx_noop() -> (r: Self) ensures !r.op, forall|t: MetricType| #[trigger] r.cnt(t) == 0, r.life@.len() == 0 { unimplemented!() }
